@@ -5,6 +5,7 @@ control function installed in an upipe_mgr slot (DESIGN §4 C20)."""
 import glob
 import os
 
+import re
 from upv import facts, effects, control
 from upv.facts import strip, strip_all_casts, walk, is_assign, const_of, enum_name, path_of
 from upv.report import Report, HOLDS, VIOLATED, UNDECIDED, OOS
@@ -148,7 +149,7 @@ def run(tier='quick', repo=None):
              'whose address derives from the pipe parameter or a global (stores through va_arg out-pointers and to locals are allowed; so is the balanced use/release '
              'bracket that upipe_control() itself puts around a command sent to another pipe)')
     rep.rule('R-getset-agree', 'for each pair K_GET_X / K_SET_X handled by one control root: every private field copied out directly '
-             'by the getter is stored somewhere in the setter slice')
+             'by the getter is stored somewhere in the setter slice, and the function implementing the setter stores it on every path that does not return a constant error')
     rep.rule('R-set-atomic', 'in a *_SET_* slice whose command has a paired getter, no return of an error constant other than '
              'UBASE_ERR_ALLOC is dominated (from the case label / callee entry) by a statement that stores into the pipe; and in a setter made of several steps, '
              'a field definitely stored before a local call that can fail is stored again before that failure is returned')
@@ -258,6 +259,7 @@ def run(tier='quick', repo=None):
                                 getter_returns=['%s.%s' % x for x in direct])
                     else:
                         rep.add('R-getset-agree', inst, HOLDS, root.loc, fields=['%s.%s' % x for x in direct])
+                        check_agree_paths(rep, E, prog, sl[ks], direct, inst, root)
                 # R-set-atomic on the setter slices
                 for s in sl[ks]:
                     check_set_atomic(rep, E, s, ks, rname)
@@ -269,7 +271,15 @@ def run(tier='quick', repo=None):
                                 if x3.get('k') == 'call' and x3.get('fn') and not dispatch_skip(s.fn)(x3):
                                     g3 = prog.lookup(s.fn.unit, x3['fn'])
                                     if g3 is not None and g3.blocks and g3.unit is s.fn.unit and g3.inmain:
+                                        if g3.name not in seen_fns and ks not in NOT_ATOMIC_BY_CONTRACT:
+                                            # the function that implements the setter: its own rejections must come before it touches the pipe
+                                            class _S:
+                                                pass
+                                            ps = _S()
+                                            ps.fn, ps.blocks, ps.case_block = g3, set(g3.blocks), g3.entry
+                                            check_set_atomic(rep, E, ps, ks, rname)
                                         check_composite(rep, E, g3, ks, rname, seen_fns)
+    check_post_hooks(rep, prog, E)
     rep.tables['pairs'] = ['%s %s/%s' % p for p in pairs_seen][:300]
     rep.tables['n_pairs'] = len(pairs_seen)
     rep.tables['not_a_pair'] = NOT_A_PAIR
@@ -281,6 +291,147 @@ def run(tier='quick', repo=None):
         'allocation-failure returns (UBASE_ERR_ALLOC) are outside R-set-atomic',
     ]
     return rep
+
+
+
+
+# ---- post-control hooks --------------------------------------------------------------------
+# A control function of the form `UBASE_RETURN(_X_control(upipe, command, args)); return X_check(upipe, ...);` runs
+# X_check after every command it handled, getters included.  Such hooks acquire resources lazily (pumps, clocks,
+# managers: pointer fields) - that is idempotent.  The scalar state they may write in addition is frozen here from
+# the tree as confirmed by reading (sources that start producing once everything they need has been provided).
+RESOURCE_T = re.compile(r'\*|^struct (urequest|uchain|urefcount|upump_blocker)\b')
+POST_HOOK_SCALARS = {
+    'upipe_ablk_check': {'output_state'}, 'upipe_audio_merge_check': {'output_state'},
+    'upipe_fsrc_check': {'output_state', 'safe'},
+    'upipe_msrc_check': {'fd', 'fileidx', 'missing', 'output_state'},
+    'upipe_sinesrc_check': {'output_state'}, 'upipe_udpsrc_check': {'output_state'},
+    'upipe_vblk_check': {'nb_urefs', 'output_state'}, 'upipe_voidsrc_check': {'output_state'},
+    'upipe_http_src_check': {'output_state'},
+}
+
+
+def check_post_hooks(rep, prog, E):
+    from upv import pathrules as pr
+    rep.rule('R-get-pure', rep.rules['R-get-pure'] + '; a hook that the control function runs after every handled command (X_check) writes, besides '
+             'pointer-typed resource fields, only the scalar fields listed for it in table post_hook_scalars')
+    rep.tables['post_hook_scalars'] = {k: sorted(v) for k, v in POST_HOOK_SCALARS.items()}
+    n = 0
+    for uname, u in sorted(prog.units.items()):
+        for slots in control.mgr_slots(u):
+            c = slots.get('upipe_control')
+            if not c or c not in u.funcs:
+                continue
+            root = u.funcs[c]
+            ci = control.command_param(root)
+            if ci is None:
+                continue
+            if any((b.get('term') or {}).get('cls') == 'SwitchStmt' and control.is_param_ref(root.resolve(b['term'].get('cond')), root, ci)
+                   for b in root.blocks.values()):
+                continue
+            ev = pr.Events(root)
+            fwd = lambda x: x.get('k') == 'call' and x.get('fn') and any(control.is_param_ref(a, root, ci) for a in x.get('args', []))
+            hooks = []
+            for pos in ev.find(fwd):
+                hits, _ = ev.reach((pos[0], pos[1]), lambda x: x.get('k') == 'call' and x.get('fn') and not fwd(x), None)
+                for h in hits:
+                    g = prog.lookup(u, h[2]['fn'])
+                    if g is not None and g.blocks and g.unit is u and g.inmain and g not in hooks:
+                        hooks.append(g)
+            for g in hooks:
+                n += 1
+                eff, ind, ext, calls = E.block_effects(u, g, set(g.blocks), skip=lambda c_: False)
+                bad = {}
+                for e in eff:
+                    if not (private_origin(e) and e.kind == 'store' and e.rec) or e.rec in ('urefcount', 'uchain', 'urequest', 'upump', 'upipe'):
+                        continue
+                    r = u.records.get(e.rec) or (prog.hdr.records.get(e.rec) if prog.hdr else None)
+                    ty = None
+                    for f in (r['fields'] if r else []):
+                        if f['n'] == e.field:
+                            ty = f.get('t')
+                    if ty and RESOURCE_T.search(ty):
+                        continue
+                    if e.field in POST_HOOK_SCALARS.get(g.name, ()):
+                        continue
+                    bad.setdefault((e.rec, e.field), e)
+                inst = '%s:after-every-command:%s' % (root.name, g.name)
+                if bad:
+                    for (rec_, fld), e in sorted(bad.items(), key=str):
+                        rep.add('R-get-pure', '%s:%s.%s' % (inst, rec_, fld), VIOLATED, '%s:%s' % (e.file, e.line), effect=e.describe(),
+                                what='%s runs after every command %s handles, getters included, and changes %s.%s: calling a getter alters what the pipe does next' % (
+                                    g.name, root.name, rec_, fld))
+                else:
+                    rep.add('R-get-pure', inst, HOLDS, g.loc)
+    if n < 10:
+        raise facts.AnalysisBroken('only %d post-control hooks found' % n)
+
+
+
+
+AGREE_EXCEPTIONS = {
+    ('upipe_http_src_set_uri', 'url'): 'the return without a store (upipe_http_source.c:1202) is the allocation-failure path of uref_block_flow_alloc_def, which the code reports as UBASE_ERR_NONE after logging; allocation failures are out of scope',
+    ('_upipe_fsink_set_fd', 'fd'): 'a negative descriptor asks to close: when the sink is already closed (fd == -1, tested at the top) there is nothing to store and -1 is what the getter reports',
+}
+
+
+def check_agree_paths(rep, E, prog, setter_slices, direct, inst, root):
+    """the function that implements the setter stores the field the getter reports on every path that accepts the value
+    (returns anything but a constant error)"""
+    from upv import pathrules as pr
+    for s in setter_slices:
+        impl = []
+        for b3 in s.blocks:
+            for st3 in s.fn.stmts(b3):
+                for x3 in walk(st3):
+                    if x3.get('k') == 'call' and x3.get('fn') and not dispatch_skip(s.fn)(x3):
+                        g3 = prog.lookup(s.fn.unit, x3['fn'])
+                        if g3 is not None and g3.blocks and g3.unit is s.fn.unit and g3.inmain and g3 not in impl:
+                            impl.append(g3)
+        for g in impl:
+            for (rec, field) in direct:
+                def stores(n, g=g, rec=rec, field=field):
+                    if is_assign(n):
+                        l = strip(n['lhs'])
+                        return isinstance(l, dict) and l.get('k') == 'mem' and l.get('rec') == rec and l.get('f') == field
+                    if n.get('k') == 'call':
+                        for a in n.get('args', []):
+                            a0 = strip_all_casts(a)
+                            if isinstance(a0, dict) and a0.get('k') == 'un' and a0.get('op') == '&':
+                                m = strip_all_casts(a0.get('e'))
+                                if isinstance(m, dict) and m.get('k') == 'mem' and m.get('rec') == rec and m.get('f') == field:
+                                    return True      # the field is handed to a function that sets / clears it
+                    if n.get('k') == 'call' and n.get('fn'):
+                        h = prog.lookup(g.unit, n['fn'])
+                        if h is not None and h.blocks and h.unit is g.unit and h is not g:
+                            eff, _, _, _ = E.block_effects(g.unit, h, set(h.blocks), skip=lambda c_: False)
+                            return any(e.rec == rec and e.field == field and e.kind == 'store' for e in eff)
+                    return False
+                ev = pr.Events(g)
+                if not ev.find(stores):
+                    continue         # not the function that implements this pair
+
+                def accepting(n, g=g):
+                    # `return UBASE_ERR_NONE` or a tail call (delegation); a returned variable is the propagated failure of UBASE_RETURN
+                    if n.get('k') != 'return':
+                        return False
+                    if not isinstance(n.get('e'), dict):
+                        return True
+                    en = enum_name(n['e'])
+                    if en:
+                        return en == 'UBASE_ERR_NONE'
+                    e0 = strip_all_casts(g.resolve(n['e']))
+                    return isinstance(e0, dict) and e0.get('k') == 'call'
+                bad = pr.must_precede(ev, stores, accepting)
+                name = '%s:every-accepting-path-stores:%s.%s' % (inst, rec, field)
+                if bad and (g.name, field) in AGREE_EXCEPTIONS:
+                    rep.add('R-getset-agree', name, OOS, g.loc, why='listed exception: ' + AGREE_EXCEPTIONS[(g.name, field)])
+                elif bad:
+                    rep.add('R-getset-agree', name, VIOLATED, '%s:%s' % (g.file, bad[0][2].get('l')),
+                            what='%s accepts a value (return at line %s) without storing %s.%s, which is what the getter reports: after that call the getter '
+                                 'still returns the previous value' % (g.name, bad[0][2].get('l'), rec, field))
+                else:
+                    rep.add('R-getset-agree', name, HOLDS, g.loc)
 
 
 ERR_OK = {'UBASE_ERR_NONE', 'UBASE_ERR_UNHANDLED', 'UBASE_ERR_ALLOC'}
@@ -416,6 +567,9 @@ def null_guarded_failures(E, g):
 NOT_ATOMIC_BY_CONTRACT = {
     'UPIPE_SET_URI': 'upipe.h: set_uri closes the currently opened resource first (also used with NULL to close); a failed open leaves the pipe closed, '
                      'which is the documented behaviour of sources and sinks',
+    'UPIPE_FSINK_SET_PATH': 'upipe_file_sink.h: opens the given path (NULL closes); like set_uri the file currently open is closed first, '
+                            'a failed open leaves the sink closed',
+    'UPIPE_FSINK_SET_FD': 'upipe_file_sink.h: associates a descriptor; like set_uri the file currently open is closed first',
 }
 
 
